@@ -214,7 +214,8 @@ Fixpoint zrestrict_c (fuel : nat) (s : snap) (c : C) (f vars : ref) (level : nat
                   (fun s1 c1 child => zfin_c C cap s1 c1 level child child)
             else if negb (Nat.eqb flevel level) then zrestrict_c n s c f vhi (S level)
             else
-              match cget c zcode_restrict [f; vars] [] with
+              (* key = (Restrict, [f, vars], [num_levels]) as in DD/ZbddBool.v (/repo f8637cd) *)
+              match cget c zcode_restrict [f; vars] [nlevels s] with
               | Some r => GOk s c r
               | None =>
                 (* let (hi, lo) = rec.binary_with_level(restrict, (fhi, vhi, level + 1), (flo, vhi, level + 1))?;
@@ -223,7 +224,7 @@ Fixpoint zrestrict_c (fuel : nat) (s : snap) (c : C) (f vars : ref) (level : nat
                   (fun s1 c1 => zrestrict_c n s1 c1 (eref flo) vhi (S level))
                   (fun s2 c2 hi lo =>
                      gfin s2 c2 (zmk_node_cap cap s2 level hi lo)
-                          (fun r => cadd c2 zcode_restrict [f; vars] [] r) (fun r => r))
+                          (fun r => cadd c2 zcode_restrict [f; vars] [nlevels s] r) (fun r => r))
               end
           end
         | _ =>
